@@ -20,7 +20,7 @@ BIN = os.path.join(CRATE, 'target', 'release', 'verif-replay')
 # properties anchored in aiken-project use a second harness crate (heavier dependency tree, built only for them)
 CRATE_P = os.path.join(ROOT, 'replayp')
 BIN_P = os.path.join(CRATE_P, 'target', 'release', 'verif-replayp')
-PROJECT_PROPS = {'C18', 'C09'}
+PROJECT_PROPS = {'C18', 'C09', 'C20'}
 MODES = {
     'C02': ['optimizer'],
     'C03': ['cek', 'corpus'],
@@ -32,6 +32,7 @@ MODES = {
     'C16': ['shrinker', 'proptest'],
     'C18': ['applyparam'],
     'C09': ['determinism'],
+    'C20': ['malformed'],
 }
 
 
